@@ -1,6 +1,7 @@
 package lint
 
 import (
+	"os"
 	"fmt"
 	"strings"
 
@@ -20,6 +21,11 @@ type Loc struct {
 	I int
 	// Known seeds TrackEq searches with the fact of the edge this location was entered through.
 	Known string
+	// Pred, when set, is the block the location is entered from (the location is the successor of
+	// one of Pred's edges): phis of B are bound accordingly and the edge's own outcome is known.
+	Pred *ssa.BasicBlock
+
+	env *pathEnv // path knowledge recorded when the location was found by a resolved search
 }
 
 // EdgeInfo describes one outgoing edge of an If.
@@ -29,6 +35,10 @@ type EdgeInfo struct {
 	Cond  ssa.Value // condition after phi resolution for the path taken
 	// RawCond is the condition as written (after same-block phi resolution only)
 	RawCond ssa.Value
+	// AnyOf: disjunctions implied by this edge (each group: at least one member holds), as
+	// conditions and rendered as facts (group → member → facts); see impliedAnyOf
+	AnyOf      [][]CondTruth
+	AnyOfFacts [][][]string
 	Facts   []string
 }
 
@@ -46,6 +56,9 @@ type CutSpec struct {
 	// node (spawning or scheduling a call is not the call). Rules whose event IS the go/defer
 	// statement itself set this.
 	GoDeferCount bool
+	// Collect, when set, receives the successor location of every edge that Edges cuts (with the
+	// path knowledge at that point): "the places reached through an edge carrying fact F".
+	Collect func(Loc)
 	// TrackEq makes the search path-sensitive for comparisons of one pure value (a parameter, a
 	// field load, a local) with constants: an edge whose fact `eq(X,const:a)` / `ne(X,const:a)`
 	// contradicts an `eq(X,const:b)` already taken on the path is infeasible and pruned. Rules opt
@@ -132,6 +145,10 @@ func (p *Program) reach(starts []Loc, target InstrPred, cut CutSpec, sensitive b
 
 	seen := map[key]bool{}
 
+	// descriptions computed while a step is evaluated see the joins bound on that path
+	savedEnv := p.curEnv
+	defer func() { p.curEnv = savedEnv }()
+
 	var sense *funcSense
 
 	if sensitive && len(starts) > 0 && starts[0].B != nil {
@@ -142,10 +159,16 @@ func (p *Program) reach(starts []Loc, target InstrPred, cut CutSpec, sensitive b
 	for _, s := range starts {
 		env := emptyEnv
 		if sense != nil && s.B != nil {
-			env = seedEnv(s.B)
+			if s.env != nil {
+				env = s.env
+			} else if s.Pred != nil && s.I == 0 {
+				env = seedEdge(s.Pred, s.B).enter(sense, s.B, s.Pred)
+			} else {
+				env = seedEnv(s.B)
+			}
 		}
 
-		queue = append(queue, &pstate{blk: s.B, idx: s.I, known: s.Known, env: env})
+		queue = append(queue, &pstate{blk: s.B, idx: s.I, pred: s.Pred, known: s.Known, env: env})
 	}
 
 	for len(queue) > 0 {
@@ -167,6 +190,7 @@ func (p *Program) reach(starts []Loc, target InstrPred, cut CutSpec, sensitive b
 
 		b := cur.blk
 		stopped := false
+		p.curEnv = cur.env
 
 		for i := cur.idx; i < len(b.Instrs); i++ {
 			in := b.Instrs[i]
@@ -239,7 +263,33 @@ func (p *Program) reach(starts []Loc, target InstrPred, cut CutSpec, sensitive b
 				}
 
 				e := EdgeInfo{If: ifi, Taken: taken, Cond: cond, RawCond: rawCond, Facts: facts}
+
+				for _, grp := range p.impliedAnyOf(cond, taken, 0) {
+					var gf [][]string
+
+					for _, ct := range grp {
+						gf = append(gf, p.factsD(ct.Cond, ct.Truth, 1))
+					}
+
+					e.AnyOf = append(e.AnyOf, grp)
+					e.AnyOfFacts = append(e.AnyOfFacts, gf)
+				}
+
+				if os.Getenv("COSILINT_DEBUG") == "anyof" && len(e.AnyOfFacts) > 0 {
+					fmt.Fprintf(os.Stderr, "anyof %s taken=%v: %v\n", facts[0], taken, e.AnyOfFacts)
+				}
+
 				if cut.Edges != nil && cut.Edges(e) {
+					if cut.Collect != nil {
+						cenv := env
+						if sense != nil {
+							cenv = env.enter(sense, succ, b)
+						}
+
+						known, _ := trackEq(cur.known, facts[0])
+						cut.Collect(Loc{B: succ, Pred: b, Known: known, env: cenv})
+					}
+
 					continue
 				}
 
@@ -393,6 +443,29 @@ func FactEdge(globs ...string) EdgePred {
 			}
 		}
 
+		// a disjunction all of whose alternatives are enabling
+		for _, grp := range e.AnyOfFacts {
+			all := len(grp) > 0
+
+			for _, member := range grp {
+				hit := false
+
+				for _, f := range member {
+					if GlobAny(globs, f) {
+						hit = true
+					}
+				}
+
+				if !hit {
+					all = false
+				}
+			}
+
+			if all {
+				return true
+			}
+		}
+
 		return false
 	}
 }
@@ -402,6 +475,35 @@ func OrEdge(ps ...EdgePred) EdgePred {
 	return func(e EdgeInfo) bool {
 		for _, f := range ps {
 			if f != nil && f(e) {
+				return true
+			}
+		}
+
+		// an implied disjunction each alternative of which is enabling for one of the predicates
+		for gi, grp := range e.AnyOf {
+			all := len(grp) > 0
+
+			for mi, ct := range grp {
+				var facts []string
+				if gi < len(e.AnyOfFacts) && mi < len(e.AnyOfFacts[gi]) {
+					facts = e.AnyOfFacts[gi][mi]
+				}
+
+				member := EdgeInfo{If: e.If, Taken: ct.Truth, Cond: ct.Cond, RawCond: ct.Cond, Facts: facts}
+				hit := false
+
+				for _, f := range ps {
+					if f != nil && f(member) {
+						hit = true
+					}
+				}
+
+				if !hit {
+					all = false
+				}
+			}
+
+			if all {
 				return true
 			}
 		}
